@@ -55,7 +55,16 @@ def power(x1: PolyLike, x2: PolyLike, **kwargs: Any) -> ndpoly:
 
     """
     x1 = numpoly.aspolynomial(x1)
-    x2 = numpoly.aspolynomial(x2).tonumpy().astype(int)
+    x2 = numpoly.aspolynomial(x2).tonumpy()
+    if numpy.any(x2 < 0) or numpy.any(x2 != numpy.floor(x2)):
+        # not a natural number: numpy's own power for constants, and no
+        # such thing for polynomials (the exponent used to be truncated)
+        if not x1.isconstant():
+            raise numpoly.FeatureNotSupported(
+                "only non-negative integer powers of polynomials are supported."
+            )
+        return numpoly.polynomial(numpy.power(x1.tonumpy(), x2))
+    x2 = x2.astype(int)
 
     if not x2.shape:
         out = numpoly.ndpoly.from_attributes(
